@@ -118,14 +118,14 @@ can reach the waiting shell is tried, and the action counts as modelled only if 
 def macroAll (c : Cfg) (s : State) (a : SAct) : MacroRes :=
   let sensitive := (a = .ctrlZ || a = .ctrlC) && (match s.mode with | .waiting _ => true | _ => false)
   if !sensitive then
-    match runMacro c [] s a with
+    match runMacro c stageCmd [] s a with
     | some s' => .ok s'
     | none => .stuck
   else
     let sg : Sig := if a = .ctrlZ then .tstp else .int
     let after := sigGroup s.procs s.tfg sg
     let affected := ((s.procs.zip after).filter fun (p, q) => p.note ≠ q.note).map (·.1.pid)
-    let rs := (perms affected).map fun pref => runMacro c pref s a
+    let rs := (perms affected).map fun pref => runMacro c stageCmd pref s a
     match rs with
     | some s1 :: rest => if rest.all (fun r => match r with | some s2 => stateKey s2 = stateKey s1 | none => false) then .ok s1 else .orderSensitive
     | _ => .stuck
@@ -153,80 +153,6 @@ def replaySpec (acts : List SAct) : List String :=
   (acts.foldl (fun (acc : World × List String) a =>
     let (w', outs) := specStep acc.1 a
     (w', acc.2 ++ [obsText hs cmdOf (specObs w' outs)])) ({}, [])).2
-
-/-! ### input-level classes of the known findings
-
-Evaluated on the reference world only (never on the model's output): what was done to which process while
-the shell was in which situation. -/
-
-structure Flags where
-  /-- a stop or continue was sent to one member of a pipeline that has another long-running stage -/
-  memberAlone : Bool := false
-  /-- a member of the awaited pipeline was stopped and later killed, or stopped twice, within one wait -/
-  countedTwice : Bool := false
-  /-- a process outside the awaited pipeline was stopped and continued (or continued and stopped) with no prompt in
-  between, the second time while the shell was waiting (so that the first change had been parked) -/
-  parkedPair : Bool := false
-  /-- a member of the awaited pipeline was continued from outside -/
-  fgContinued : Bool := false
-  /-- members of the awaited pipeline stopped since the current wait began -/
-  stoppedInWait : List Nat := []
-  /-- processes stopped / continued from outside since the last end of a line -/
-  stopSincePoll : List Nat := []
-  contSincePoll : List Nat := []
-  deriving Repr
-
-def jobOf (w : World) (i : Nat) : Option WJob := w.jobs.find? fun j => j.members.contains i
-
-def isLine : SAct → Bool
-  | .launch _ _ => true
-  | .fg _ => true
-  | .bg _ => true
-  | .jobs => true
-  | .empty => true
-  | _ => false
-
-def flagStep (w w' : World) (f : Flags) (a : SAct) : Flags :=
-  let waiting := w.fg.isSome
-  let fgMembers : List Nat := match w.fg.bind fun id => w.jobs.find? (·.id = id) with
-    | some j => j.members
-    | none => []
-  let others := fun (i : Nat) => match jobOf w i with
-    | some j => (j.long.filter (· ≠ i)).length > 0
-    | none => false
-  let f := match a with
-    | .stop i =>
-      if w.st i ≠ .running then f else
-      let f := if others i then { f with memberAlone := true } else f
-      let f := if waiting && fgMembers.contains i && f.stoppedInWait.contains i then { f with countedTwice := true } else f
-      let f := if waiting && !fgMembers.contains i && f.contSincePoll.contains i then { f with parkedPair := true } else f
-      let f := if waiting && fgMembers.contains i then { f with stoppedInWait := f.stoppedInWait ++ [i] } else f
-      { f with stopSincePoll := f.stopSincePoll ++ [i] }
-    | .cont i =>
-      if w.st i ≠ .stopped then f else
-      let f := if others i then { f with memberAlone := true } else f
-      let f := if waiting && fgMembers.contains i then { f with fgContinued := true } else f
-      let f := if waiting && !fgMembers.contains i && f.stopSincePoll.contains i then { f with parkedPair := true } else f
-      { f with contSincePoll := f.contSincePoll ++ [i] }
-    | .kill i =>
-      if w.st i = .gone then f else
-      if waiting && fgMembers.contains i && f.stoppedInWait.contains i && others i then { f with countedTwice := true } else f
-    | _ => f
-  -- the prompt is back after a line or after a wait: the poll has run
-  let f := if w'.fg.isNone && (isLine a || waiting) then { f with stopSincePoll := [], contSincePoll := [] } else f
-  if w'.fg.isNone then { f with stoppedInWait := [] } else f
-
-def flagsOf (acts : List SAct) : Flags :=
-  (acts.foldl (fun (acc : World × Flags) a =>
-    let w' := (specStep acc.1 a).1
-    (w', flagStep acc.1 w' acc.2 a)) ({}, {})).2
-
-def classOf (f : Flags) : String :=
-  if f.countedTwice then "wait-counts-member-twice"
-  else if f.fgContinued then "foreground-member-continued"
-  else if f.parkedPair then "stop-cont-parked-together"
-  else if f.memberAlone then "member-signalled-alone"
-  else "-"
 
 /-! ### random sessions -/
 
